@@ -49,7 +49,13 @@ func checkC07(e *Env) {
 		if withIdent {
 			ops = append(ops, plan.Op{Fn: "ident"})
 		}
-		for k := 0; k < calls; k++ {
+		nc := calls
+		if p == 0 && withIdent {
+			// one long-lived process: a source that is replaced, re-seeded or pooled after some
+			// thousands of calls shows only there
+			nc = e.pick(12000, 150000)
+		}
+		for k := 0; k < nc; k++ {
 			ops = append(ops, plan.Op{Fn: "new", N: int64(ref.WordCounts[(k+p)%5]), L: int64((k/5 + r.Intn(2)*5) % ref.NLang), Keep: withIdent})
 			if withIdent && p%3 == 1 && k%2 == 0 {
 				// calls of the other functions in between (bystanders: failing validations,
@@ -524,7 +530,7 @@ func checkC07(e *Env) {
 	e.WriteEvidence("exploration", map[string]any{
 		"evaluations":            totalCalls,
 		"distinct_nontrivial":    dist.Len(),
-		"rule":                   "cases are default-source NewMnemonic calls (all five word counts, all ten languages) made in fresh processes that swapped nothing; half of the processes run with the crypto/rand interposer (aaverif/internal/earlyrand, initialised before bip39) where every sentence must decode to exactly the bytes crypto/rand.Reader delivered during that call (the interposer also fragments reads in some processes and makes one read fail in others: that call must then return (\"\", error)), the other half with the untouched crypto/rand.Reader where the pre-swap source must be identical to it; further processes run 4-16 goroutines under the race detector with the interposer attributing reads to goroutines (each sentence must encode the bytes delivered to its own goroutine); further processes run without any hook under strace and every sentence must decode to the buffer of one getrandom(2) call; non-trivial = every call (each is matched against observed source bytes or decoded for the duplicate/uniformity statistics); distinct = distinct entropies observed",
+		"rule":                   "cases are default-source NewMnemonic calls (all five word counts, all ten languages) made in fresh processes that swapped nothing; half of the processes run with the crypto/rand interposer (aaverif/internal/earlyrand, initialised before bip39) where every sentence must decode to exactly the bytes crypto/rand.Reader delivered during that call (the interposer also fragments reads in some processes and makes one read fail in others: that call must then return (\"\", error)), half of those that deliver everything run in a hostile environment (seed-file variables such as RANDFILE and HOME/.rnd, or fixed-seed and deterministic/debug switches), one of them is long-lived (12 000 calls, thorough 150 000); the other half with the untouched crypto/rand.Reader where the pre-swap source must be identical to it; further processes run 4-16 goroutines under the race detector with the interposer attributing reads to goroutines (each sentence must encode the bytes delivered to its own goroutine); further processes run without any hook under strace and every sentence must decode to the buffer of one getrandom(2) call; non-trivial = every call (each is matched against observed source bytes or decoded for the duplicate/uniformity statistics); distinct = distinct entropies observed",
 		"samples":                smp.List(),
 		"observations":           obs.Map(),
 		"kernel_boundary_layer":  straceState,
